@@ -7,12 +7,13 @@ from typing import Dict, List, Optional, Set, Tuple
 
 from ..model import AnchorError, Program, dotted, kw, last_attr, norm, parent, walk_no_nested
 from ..report import Check
-from .common import calls_in, guards_of, local_assignments, returns_of, stmt_of
+from .common import calls_in, guards_of, local_assignments, need_locals, returns_of, stmt_of
 
 
 def r06_a(prog: Program, chk: Check) -> None:
     chk.rule("R06.a", "failing parameter checks are never dropped: the error path reports and returns None, both callers test for None, the flag reaches CallReturn.is_error", floor=7)
     pc = prog.func("signature", "Signature._check_param_type_compatibility")
+    need_locals(pc, "bounds_map", "param_typ", "composite", "typevar_map", "ctx", "param")
     site = prog.site("signature", pc)
     # error path: on_error then return (None, ...)
     errs = [s for s in walk_no_nested(pc) if isinstance(s, ast.Expr) and isinstance(s.value, ast.Call) and norm(s.value.func) == "ctx.on_error"]
@@ -29,6 +30,7 @@ def r06_a(prog: Program, chk: Check) -> None:
     t = norm(pc)
     chk.ob("R06.a", "signature::Signature._check_param_type_compatibility::substituted-type", "param_typ = param.annotation.substitute_typevars(typevar_map)" in t and "can_assign_and_used_any(param_typ, composite.value" in t, site, "the argument must be checked against the parameter type with the solved type variables substituted")
     cc = prog.func("signature", "Signature.check_call_with_bound_args")
+    need_locals(cc, "had_error", "errors", "bound_args", "typevar_values")
     sites = calls_in(cc, "_check_param_type_compatibility")
     if len(sites) != 2:
         raise AnchorError("check_call_with_bound_args: expected 2 calls of _check_param_type_compatibility")
